@@ -82,7 +82,8 @@ def _writer(ctx, rm, pkg):
             fields.append(("seq", sep, seq))
         else:
             fields.append(("literal", t))
-    return {"variant": v, "fields": fields, "fn": fn, "flow": fl}
+    fill = pkg.functions.get(("naunet/utilities.py", "_fill_list"))
+    return {"variant": v, "fields": fields, "fn": fn, "flow": fl, "fill_params": [a.arg for a in fill.args.args] if fill is not None and len(fill.args.args) == 3 else None}
 
 
 def _reader(ctx, pkg):
@@ -186,6 +187,13 @@ def _r1_r2(ctx, w, r):
         elif f[0] == "seq":
             seq = f[2]
             b = match(("call", ("global", "_fill_list"), (V("l"), V("n"), V("d")), ()), seq)
+            if b is None and seq[0] == "call" and seq[1] == ("global", "_fill_list") and seq[3] and w.get("fill_params"):
+                # keyword arguments: bound to the helper's parameters by name
+                names = w["fill_params"]
+                given = dict(zip(names, seq[2]))
+                given.update({k_: v_ for k_, v_ in seq[3] if k_ in names and k_ not in given})
+                if len(given) == 3 and len(seq[2]) + len(seq[3]) == 3:
+                    b = dict(zip("lnd", (given[p_] for p_ in names)))
             if b and b["n"][0] == "const":
                 m = as_map(b["l"])
                 src = None
@@ -922,3 +930,10 @@ def _rd_indexed(names):
 
 BENIGN.append({"name": "reader-fields-by-index-arithmetic", "file": RFILE, "old": _RD_SPLIT_OLD, "new": _rd_indexed("a, b, c, lt, ut, rtype, source")})
 MUTANTS.append({"name": "reader-index-arithmetic-beta-gamma-swapped", "file": RFILE, "old": _RD_SPLIT_OLD, "new": _rd_indexed("a, c, b, lt, ut, rtype, source"), "rules": ["R1"]})
+
+_FILL_OLD = 'rnames = _fill_list([f"{x:>12}" for x in rnames], 3, dummy)'
+BENIGN.append({"name": "writer-fill-count-by-keyword", "file": RFILE, "old": _FILL_OLD, "new": 'rnames = _fill_list([f"{x:>12}" for x in rnames], dummy=dummy, nitem=3)'})
+MUTANTS.append({"name": "writer-fill-count-by-keyword-wrong", "file": RFILE, "old": _FILL_OLD, "new": 'rnames = _fill_list([f"{x:>12}" for x in rnames], dummy=dummy, nitem=4)', "rules": ["R1"]})
+BENIGN.append({"name": "writer-columns-by-percent-format", "file": RFILE, "old": '                    f"{self.alpha:10.3e}",\n                    f"{self.beta:10.3e}",\n',
+               "new": '                    "%10.3e" % self.alpha,\n                    "%10.3e" % (self.beta,),\n'})
+MUTANTS.append({"name": "writer-percent-format-fixed-point", "file": RFILE, "old": '                    f"{self.alpha:10.3e}",\n', "new": '                    "%10.3f" % self.alpha,\n', "rules": ["R2"]})
